@@ -111,6 +111,8 @@ def run_virtual(case):
 TITLE_SETS = {"dup": ["SAME"], "lr": ["PAD L", "PAD R", "PAD-L", "PAD-R"], "lr_only": ["L", "R", "-L", "-R"],
               "dots": ["TRK.1", "TRK.2", "TRK.", ".TRK"], "unsafe": ["a/b", "a:b", "..", "a\\b"], "case": ["Trk", "TRK", "trk", "TrK"],
               "numbered": ["T", "T (2)", "T (2)", "T"], "wavext": ["Intro", "Intro.wav", "INTRO.WAV", "Intro.wav.wav"],
+              # titles that differ only in trailing dots / blanks (characters some file systems drop at the end of a name)
+              "trailing": ["Wait for it", "Wait for it...", "Take 1.", "Take 1.."], "trailing2": ["End", "End .", "End. ", "End"],
               "keywords": ["Soundtrack 2 Reprise", "my track 09 audio mix", "INDEX 01 00:00:00", "FILE x BINARY", "TITLE", "REM"]}
 
 
@@ -190,8 +192,8 @@ class Check(CheckBase):
             "parse_cue_sheet/from_bin_cue/WAV builder; minute-carry positions 4499/4500/4501; TRACK numbers that are not 1..n in sheet order "
             "(3/9/10/42, counting down, restarting, first one highest, all equal, 0 and 99) with unusual INDEX numbers; the mode keyword spelled audio / Audio / aUDIO per track; (iii) a subset through real "
             ".cue/.bin files and the full ls/export run, incl. sheets of 50, 98 and 99 tracks with 0..700 bytes of ignorable lines per "
-            "track (sheets of 3 KB .. 80 KB), and 8 title families whose shape invites special treatment by naming "
-            "code (equal, L/R-pair shaped, bare L/R, dotted, unsafe characters, case-only differences, '(2)'-numbered, with and without a '.wav' ending, titles that contain cue keywords such as 'track 2 reprise') judged "
+            "track (sheets of 3 KB .. 80 KB), and 10 title families whose shape invites special treatment by naming "
+            "code (equal, L/R-pair shaped, bare L/R, dotted, unsafe characters, case-only differences, '(2)'-numbered, with and without a '.wav' ending, differing only in trailing dots / blanks, titles that contain cue keywords such as 'track 2 reprise') judged "
             "by content only: one file per track, together exactly the track windows. non-trivial = >=2 tracks, or an MSF carry, or a ragged bin tail")
     assumptions = ["bin content is frame-position coded (LE32(k*2654435761)), so any foreign window is visible"]
 
